@@ -103,7 +103,8 @@ Lemma declrs_ok cl P T D0 ds : forall seen l ss seen' l',
   /\ fresh seen (map d_name ds) = true
   /\ l_count l' = l_count l + length ds
   /\ l_next l' = pre_next ds (l_next l)
-  /\ l_symset l' = match ds with [] => l_symset l | _ => false end.
+  /\ l_symset l' = match ds with [] => l_symset l | _ => false end
+  /\ l_trace l' = l_trace l.
 Proof.
   induction ds as [|d r IH]; intros seen l ss seen' l' H; cbn [mapM] in H.
   - inversion H; subst. cbn. rewrite app_nil_r. repeat split; lia.
@@ -111,8 +112,8 @@ Proof.
     destruct (mem (d_name d) seen) eqn:Hm; [discriminate|].
     destruct (d_dims d) eqn:Hd;
       (destruct (mapM (do_declr cl P T D0) r _) as [[bs [s2 l2]]|] eqn:Hr; [|discriminate];
-       inversion H; subst; apply IH in Hr; cbn [l_count l_next l_symset] in Hr;
-       destruct Hr as (E1 & E2 & E3 & E4 & E5 & E6);
+       inversion H; subst; apply IH in Hr; cbn [l_count l_next l_symset l_trace] in Hr;
+       destruct Hr as (E1 & E2 & E3 & E4 & E5 & E6 & E7);
        cbn [pre_syms pre_next map fresh length]; unfold own_dims, step_next; rewrite Hd, Hm; cbn [negb andb];
        subst; rewrite <- app_assoc; cbn [app];
        repeat split; try assumption; try lia;
@@ -247,17 +248,22 @@ Lemma do_clause_ok v cl seen l ss seen' l' :
   /\ seen' = seen ++ map d_name (c_decls cl)
   /\ fresh seen (map d_name (c_decls cl)) = true
   /\ l_count l' = l_count l + length (c_decls cl)
-  /\ l_symset l' = match c_decls cl with [] => l_symset l | _ => false end.
+  /\ l_symset l' = match c_decls cl with [] => l_symset l | _ => false end
+  /\ l_trace l' = l_trace l ++ map key ss
+  /\ (ss, l_next l') = close_clause v cl (S (S (l_next l)))
+                          (pre_syms cl (l_next l) (S (l_next l)) (S (S (l_next l))) (c_decls cl) (l_count l) (S (S (S (l_next l)))))
+                          (pre_next (c_decls cl) (S (S (S (l_next l))))).
 Proof.
   unfold do_clause. intros H.
   destruct (mapM _ (c_decls cl) _) as [[ss0 [seen0 l0]]|] eqn:Hm; [|discriminate].
-  apply declrs_ok in Hm. cbn [l_count l_next l_symset] in Hm. destruct Hm as (E1 & E2 & E3 & E4 & E5 & E6).
+  apply declrs_ok in Hm. cbn [l_count l_next l_symset l_trace] in Hm. destruct Hm as (E1 & E2 & E3 & E4 & E5 & E6 & E7).
   destruct (close_clause v cl _ ss0 (l_next l0)) as [ss' n'] eqn:Hc. inversion H; subst ss' seen' l'. clear H.
-  assert (Hs : ss = fst (close_clause v cl (S (S (l_next l))) ss0 (l_next l0))) by now rewrite Hc.
-  rewrite Hs, E1.
   destruct (close_clause_spec v cl (l_next l) (S (l_next l)) (S (S (l_next l))) (c_decls cl) (l_count l)
                               (S (S (S (l_next l)))) (l_next l0) ltac:(lia)) as [A B].
-  cbn [l_count l_symset]. repeat split; assumption.
+  rewrite <- E1, Hc in A, B. cbn [fst] in A, B.
+  cbn [l_count l_symset l_trace l_next]. repeat split; try assumption.
+  - now rewrite E7.
+  - now rewrite <- E5, <- E1, Hc.
 Qed.
 
 Lemma do_clause_dup v cl seen l :
@@ -754,13 +760,13 @@ Definition dims_of_first (r : result (list oclass)) : list (list (list expr)) :=
   match r with Ok (c :: _) => map s_dims (o_syms c) | _ => [] end.
 
 Lemma vis_refuted :
-  vis_of_first (run_file head_variant [vis_witness]) = [("a", Private); ("b", Protected); ("c", Public)]
-  /\ vis_of_first (run_file repaired_variant [vis_witness]) = [("a", Public); ("b", Protected); ("c", Public)].
+  vis_of_first (run_file prefix_variant [vis_witness]) = [("a", Private); ("b", Protected); ("c", Public)]
+  /\ vis_of_first (run_file head_variant [vis_witness]) = [("a", Public); ("b", Protected); ("c", Public)].
 Proof. split; vm_compute; reflexivity. Qed.
 
 Lemma dims_refuted :
-  dims_of_first (run_file head_variant [dims_witness]) = [[["2"]]]
-  /\ dims_of_first (run_file repaired_variant [dims_witness]) = [[["3"; "2"]]].
+  dims_of_first (run_file prefix_variant [dims_witness]) = [[["2"]]]
+  /\ dims_of_first (run_file head_variant [dims_witness]) = [[["3"; "2"]]].
 Proof. split; vm_compute; reflexivity. Qed.
 
 (* a class with prefixes, clause and declarator dimensions, a modification with a declaration value, three
@@ -779,14 +785,15 @@ Definition example_class : element :=
 
 Lemma example_ok :
   exists own nested st',
-    do_element head_variant [] example_class (mkK [] [] [], mkL 0 false 0) = Ok ((ROther, own :: nested), st')
+    do_element head_variant [] example_class (mkK [] [] [], init_lst) = Ok ((ROther, own :: nested), st')
     /\ map s_name (o_syms own) = ["a"; "b"; "i"; "p"]
     /\ map s_order (o_syms own) = [0; 1; 3; 5]
     /\ map s_vis (o_syms own) = [Private; Private; Public; Protected]
     /\ map s_prefixes (o_syms own) = [["parameter"; "input"]; ["parameter"; "input"]; []; []]
     /\ o_eqs own = ["(= a b)"; "(= i 2)"] /\ o_ieqs own = ["(= a 1)"]
     /\ NoDup (map s_pid (o_syms own)) /\ NoDup (map s_did (o_syms own)) /\ NoDup (map s_tid (o_syms own))
-    /\ length nested = 1 /\ labels_once [(Unl, tt); (Pub, tt); (Pro, tt)] = true.
+    /\ length nested = 1 /\ labels_once [(Unl, tt); (Pub, tt); (Pro, tt)] = true
+    /\ map fst (l_trace (snd st')) = [0; 1; 3; 4; 5].
 Proof.
   eexists; eexists; eexists. split; [vm_compute; reflexivity|].
   repeat split; try reflexivity; cbn; repeat constructor; cbn; intuition discriminate.
